@@ -372,7 +372,9 @@ func FatalEncodeShape(t reflect.Type) bool {
 		return true
 	case d >= 2 && (t.Kind() == reflect.Map || w > 0):
 		return true
-	case arr && (d >= 1 || t.Kind() == reflect.Map):
+	case (arr || w > 0) && d == 0 && t.Kind() == reflect.Map:
+		return true // a map is itself pointer-shaped: struct{F map[...]} by value belongs to the family
+	case arr && d >= 1:
 		return true
 	case w > 0 && d >= 1:
 		// a pointer-shaped wrapper around a pointer to a composite: results depend on stale memory
